@@ -222,6 +222,45 @@ def run(ctx):
                 if not ok:
                     ctx.violation({'kind': 'to-depends-on-the-storage-type-of-the-grid', 'wave_dtype': str(wdt) if isinstance(wdt, str) else np.dtype(wdt).name, 'density': vu0 is not None},
                                   {'path': path, 'error': err}, case=None)
+    # sampling a spectrum directly in ANOTHER wavelength unit is sampling its conversion to that unit: for a density the values per unit
+    # wavelength change with the unit (to() is checked above; here sample(waveunit=) and resample(waveunit=) against it)
+    for vu0 in [None] + FU:
+        for u0 in WU:
+            for u1 in WU:
+                if u1 == u0:
+                    continue
+                sw = np.arange(400., 700., 12.5) * r.Unit('nm').to(u0)
+                sv = 1.0 + (np.arange(sw.size) % 7) * 0.5
+                s0 = r.Spectrum(sw, sv, waveunit=u0, valueunit=vu0)
+                conv = s0.copy()
+                conv.to(u1)
+                q1 = conv.wave[2:-2] + 0.3 * (conv.wave[3] - conv.wave[2])          # interior nodes, between samples
+                npaths += 1
+                ctx.case(('sample-in-another-unit', vu0, u0, u1))
+                got = np.asarray(s0.sample(q1, waveunit=u1), dtype=float)
+                ref = np.asarray(conv.sample(q1, waveunit=u1), dtype=float)
+                rs = s0.copy()
+                rs.resample(q1, waveunit=u1)
+                if not (np.allclose(got, ref, rtol=1e-11, atol=0) and np.allclose(np.asarray(rs.value, dtype=float), ref, rtol=1e-11, atol=0) and s0.waveunit == u0):
+                    ctx.violation({'kind': 'sample-in-another-unit', 'density': vu0 is not None}, {'from': u0, 'to': u1, 'valueunit': vu0}, case=None)
+    # a source given by a law (Blackbody, Blackbody.vegamag) evaluated, converted to another flux unit, evaluated again: what it returns
+    # is in the unit it has NOW (and equals its converted samples at its own wavelengths)
+    for make in ('blackbody', 'vegamag'):
+        for vu0 in FU:
+            for vu1 in FU:
+                if vu1 == vu0:
+                    continue
+                gw = np.arange(450., 800., 25.)
+                bb = r.Blackbody(gw, 5000., waveunit='nm', valueunit=vu0) if make == 'blackbody' else r.Blackbody.vegamag(gw, 5000., mag=4, band='V', waveunit='nm', valueunit=vu0)
+                npaths += 1
+                ctx.case(('law-source-converted-after-use', make, vu0, vu1))
+                first = np.asarray(bb.sample(gw, waveunit='nm'), dtype=float)
+                bb.to(vu1)
+                again = np.asarray(bb.sample(gw, waveunit='nm'), dtype=float)
+                fresh = r.Blackbody(gw, 5000., waveunit='nm', valueunit=vu1) if make == 'blackbody' else r.Blackbody.vegamag(gw, 5000., mag=4, band='V', waveunit='nm', valueunit=vu1)
+                ref = np.asarray(fresh.sample(gw, waveunit='nm'), dtype=float)
+                if not (np.allclose(again, ref, rtol=1e-10, atol=0) and np.allclose(np.asarray(bb.value, dtype=float), ref, rtol=1e-10, atol=0)):
+                    ctx.violation({'kind': 'law-source-evaluated-in-its-earlier-unit', 'source': make}, {'from': vu0, 'to': vu1}, case=None)
     # ---- Planck ----------------------------------------------------------------------------------------------------------------------
     for T in (300.0, 2000.0, 5778.0, 12000.0):
         w_m = np.array([3e-7, 5e-7, 1e-6, 4e-6, 1e-5])
